@@ -380,8 +380,16 @@ def builder_run(seed, num, depth=160, consts=None):
     cache = os.path.join(WORK, "gen", "build_%s.ndjson" % key)
     if os.path.exists(cache):
         return [json.loads(l) for l in open(cache)]
-    lines, stats = tlc("MC_Build", "MC_Build.cfg", {}, workers=4, tag="build", timeout=1800,
-                       simulate="num=%d" % max(1, num // 4), extra=["-depth", str(depth), "-seed", str(seed)])
+    # four single-worker simulations side by side: with one worker the behaviours drawn for a seed do not depend on
+    # thread scheduling (with several workers in one TLC they do, under load), so the batch is the same on every machine
+    import concurrent.futures
+    parts = 4
+
+    def one(i):
+        return tlc("MC_Build", "MC_Build.cfg", {}, workers=1, tag="build%d" % i, timeout=3600,
+                   simulate="num=%d" % max(1, num // parts), extra=["-depth", str(depth), "-seed", str(seed * 1000 + i)])[0]
+    with concurrent.futures.ThreadPoolExecutor(parts) as ex:
+        lines = [l for ls in ex.map(one, range(parts)) for l in ls]
     seen = {}
     for r in parse_tagged(lines, "DESC"):
         k = json.dumps(r["d"], sort_keys=True)
@@ -1020,9 +1028,9 @@ def rust_res_event(x, decode):
     return ev
 
 
-def t_stage(prop, ctx, units, bins, vecs, info, rep, per_type):
+def t_stage(prop, ctx, units, bins, vecs, info, rep, per_type, only=None):
     """seeded random stimuli -> real code -> recorded events -> TLC accepts or rejects each"""
-    rng = random.Random(ctx.seed * 7919 + 17)
+    rng = random.Random(ctx.seed * 7919 + 17 + (hash(min(only)) % 1000 if only else 0) * 0)
     pos = {u.name: k + 1 for k, u in enumerate(units)}
     base_bytes, base_vals = {}, {}
     for v in vecs:
@@ -1037,7 +1045,7 @@ def t_stage(prop, ctx, units, bins, vecs, info, rep, per_type):
     want_enc = prop in ("C02", "C03", "C05", "C18")
     reqs = []
     for u in units:
-        if u.name not in bins or not info.get(u.name, {}).get("rust"):
+        if u.name not in bins or not info.get(u.name, {}).get("rust") or (only is not None and u.name not in only):
             continue
         for t in u.types():
             key = (u.name, t)
@@ -1260,41 +1268,51 @@ def check_rust_codec(prop, ctx):
         modes.append("decx")        # every byte string of length <= 2 for the bit-field-only descriptions
     small = ("bf_1_", "bf_2_", "bf_3_", "bf_4_", "bf_8", "w1_", "w2_", "w7_", "w8_", "w9_", "enum_e8", "enum_e3", "enum_er", "enum_eo",
              "enum_ec", "pl_siz8", "pl_siz3", "arr_u8_cnt", "arr_e8_siz", "opt_shared", "inh_children", "inh_by_size")
-    vecs, info = gen_vectors(ctx, units, modes, rep, nshort=2, nbits=12,
-                             mode_select=lambda u, t, m: m != "decx" or u.desc["name"].startswith(small))
-    usable = [v for v in vecs if info.get(v["unit"].name, {}).get("rust") and v["unit"].name in bins]
-    obs = run_rust(bins, rust_requests(usable))
     skipped = 0
     kinds = {}
-    for v in usable:
-        o = obs.get(v["rid"])
-        if o is None:
-            raise ToolError("no observation for vector %d" % v["rid"])
-        judge = judge_enc if v["k"] == "enc" else judge_dec
-        n = 0
-        for (p, kind, detail) in judge(v, o):
-            if p == "TOOL":
-                skipped += 1
-                continue
-            if p != prop:
-                continue
-            n += 1
-            fp = "%s|rust|%s|%s|%s|%s" % (prop, v["unit"].name, v["type"], kind, labelsig(v, detail))
-            rep.violation(fp, vec_replay(v, detail))
-        rep.validated()
-        kinds[v["label"][0] if v.get("label") else "?"] = kinds.get(v["label"][0] if v.get("label") else "?", 0) + 1
-        if n == 0 and rep.coverage["traces_validated_against_impl"] % 997 == 1:
-            rep.sample({"desc": v["unit"].name, "type": v["type"], "op": v["k"], "label": v.get("label"),
-                        "stimulus": hexs(v["bytes"]) if v["k"] == "dec" else node_to_native(v["val"]),
-                        "expected": v["faults"] if v["k"] == "enc" else v["full"]})
-    if prop != "C18":
-        t_stage(prop, ctx, units, bins, vecs, info, rep, 8 if ctx.tier == "quick" else 120)
-    else:
-        stream_stage(prop, ctx, units, bins, vecs, info, rep, 4 if ctx.tier == "quick" else 40)
+    nvec = nusable = 0
+    # the units are worked through in slices: vectors, observations and judgements of one slice are dropped before the
+    # next one starts (the thorough tier does not fit in memory otherwise)
+    step = 200
+    for lo in range(0, len(units), step):
+        chunk = set(u.name for u in units[lo:lo + step])
+        vecs, info = gen_vectors(ctx, units, modes, rep, nshort=2, nbits=12, select=lambda u, t: u.name in chunk,
+                                 mode_select=lambda u, t, m: m != "decx" or u.desc["name"].startswith(small))
+        usable = [v for v in vecs if info.get(v["unit"].name, {}).get("rust") and v["unit"].name in bins]
+        nvec += len(vecs)
+        nusable += len(usable)
+        obs = run_rust(bins, rust_requests(usable))
+        for v in usable:
+            o = obs.get(v["rid"])
+            if o is None:
+                raise ToolError("no observation for vector %d" % v["rid"])
+            judge = judge_enc if v["k"] == "enc" else judge_dec
+            n = 0
+            for (p, kind, detail) in judge(v, o):
+                if p == "TOOL":
+                    skipped += 1
+                    continue
+                if p != prop:
+                    continue
+                n += 1
+                fp = "%s|rust|%s|%s|%s|%s" % (prop, v["unit"].name, v["type"], kind, labelsig(v, detail))
+                rep.violation(fp, vec_replay(v, detail))
+            rep.validated()
+            kinds[v["label"][0] if v.get("label") else "?"] = kinds.get(v["label"][0] if v.get("label") else "?", 0) + 1
+            if n == 0 and rep.coverage["traces_validated_against_impl"] % 997 == 1:
+                rep.sample({"desc": v["unit"].name, "type": v["type"], "op": v["k"], "label": v.get("label"),
+                            "stimulus": hexs(v["bytes"]) if v["k"] == "dec" else node_to_native(v["val"]),
+                            "expected": v["faults"] if v["k"] == "enc" else v["full"]})
+        del obs
+        if prop != "C18":
+            t_stage(prop, ctx, units, bins, vecs, info, rep, 8 if ctx.tier == "quick" else 120, only=chunk)
+        else:
+            stream_stage(prop, ctx, units, bins, vecs, info, rep, 4 if ctx.tier == "quick" else 40)
+        del vecs, usable
     rep.notes["descriptions"] = len(units)
     rep.notes["descriptions_rust_supported_and_compiled"] = len(bins)
     rep.notes["vectors_by_label"] = kinds
-    rep.notes["vectors_outside_supported_class"] = len(vecs) - len(usable)
+    rep.notes["vectors_outside_supported_class"] = nvec - nusable
     rep.notes["unconstructible_values_skipped"] = skipped
     rep.assumptions += [
         "expected results are computed by TLC from spec/PdlCodec.tla (reference.md transcription); see DESIGN.md App. A",
@@ -1521,7 +1539,7 @@ def check_c06(ctx):
                         "stimulus": hexs(v["bytes"]) if "bytes" in v and v["k"] != "up" else node_to_native(v["val"])})
     rep.notes["jobs"] = len(jobs)
     rep.assumptions += ["specialize(): any identified child is accepted when several match (spec/PdlInherit.tla Candidates)",
-                        "a child that no visible constraint and no size discrimination identifies is never a candidate (Assumed)"]
+                        "an unconstrained child of non-constant size may or may not serve as the catch-all where sizes are consulted (CatchAll: both answers admitted)"]
     return rep.finish()
 
 
@@ -3023,6 +3041,41 @@ def check_c11(ctx):
                 rep.violation("C11|exclude_changes_outcome|%s|%s|%s" % (b, u.name, rid),
                               {"desc": u.desc, "pdl": u.src, "backend": b, "excluded": rid,
                                "observed": {"with_exclude": json.dumps(ga)[:300], "source_without_decl": json.dumps(gb)[:300]}})
+    # ... and the command-line tool's own --exclude-declaration (main.rs filters the parsed file itself) must produce
+    # what the library call with the same exclusion produces
+    cli_ex = [i for i in range(0, len(exreqs), 2) if "ok" in exres.get(i, {}).get("analyze", {})]
+    rng.shuffle(cli_ex)
+    cli_ex = cli_ex[:24 if quick else 300]
+
+    def run_cli_ex(i):
+        u, rid, _ = exmeta[i]
+        d = os.path.join(ctx.tmp, "cliex", "%s_%d" % (u.mod, i))
+        os.makedirs(d, exist_ok=True)
+        fn = u.desc["name"] + ".pdl"
+        with open(os.path.join(d, fn), "w") as f:
+            f.write(u.src)
+        out = {}
+        for b in ("rust", "python", "cxx"):
+            p = subprocess.run([pdlc, "--output-format", b, "--exclude-declaration", rid, fn], cwd=d,
+                               stdout=subprocess.PIPE, stderr=subprocess.PIPE)
+            out[b] = p.stdout.decode("utf-8", "replace") if p.returncode == 0 else None
+        return (i, out)
+
+    ncli = 0
+    with concurrent.futures.ThreadPoolExecutor(NCPU) as ex:
+        for (i, out) in ex.map(run_cli_ex, cli_ex):
+            u, rid, _ = exmeta[i]
+            for b in ("rust", "python", "cxx"):
+                lib = exres.get(i, {}).get(b, {}).get("ok")
+                if lib is None or out[b] is None:
+                    continue
+                rep.validated()
+                ncli += 1
+                if out[b].rstrip("\n") != lib.rstrip("\n"):
+                    rep.violation("C11|cli_exclude_vs_library|%s|%s|%s" % (b, u.name, rid),
+                                  {"desc": u.desc, "pdl": u.src, "backend": b, "excluded": rid,
+                                   "observed": {"cli_sha": sha(out[b]), "library_sha": sha(lib)}})
+    rep.notes["cli_exclusion_comparisons"] = ncli
     rep.notes["exclusion_comparisons"] = nex
     # front ends: #[pdl_inline] modules must behave event-for-event like the CLI-generated modules
     units = units[:nharness]
